@@ -9,9 +9,10 @@ if [[ "$PATCH" == @* ]]; then
 else
   git -C "$W" apply "$PATCH" || { echo "patch does not apply"; git -C /repo worktree remove --force "$W"; exit 2; }
 fi
-cd /verif && VERIF_REPO="$W" ./check "$ID" "$TIER"
+cd "$(dirname "$0")/.." && VERIF_REPO="$W" ./check "$ID" "$TIER"
 rc=$?
 git -C /repo worktree remove --force "$W"
-rm -f /verif/.work/alt-*.mod /verif/.work/alt-*.sum
+TAG=$(printf '%s' "$W" | cksum | cut -d' ' -f1)
+rm -f ".work/alt-$TAG.mod" ".work/alt-$TAG.sum" ".work/bin/vcheck-$TAG" .work/bin/vcheck-sched-*-"$TAG" .work/bin/vrace-*-"$TAG"; rm -rf .work/overlay-*-"$TAG"
 echo "exit=$rc"
 exit $rc
